@@ -9,6 +9,7 @@ import (
 
 	"github.com/jamf/regatta/regattapb"
 	"github.com/jamf/regatta/storage/table/fsm"
+	"github.com/jamf/regatta/util/iter"
 	"pgregory.net/rapid"
 
 	"verifharness/internal/fsmx"
@@ -52,11 +53,12 @@ type Read struct {
 }
 
 type Case struct {
-	RecoveryType int      `json:"recovery_type"`
-	Content      []KV     `json:"content"`
-	Deletes      [][]byte `json:"deletes,omitempty"` // keys deleted again after loading (tombstones under the iterator)
-	Flush        bool     `json:"flush"`
-	Reads        []Read   `json:"reads"`
+	RecoveryType int       `json:"recovery_type"`
+	Content      []KV      `json:"content"`
+	Deletes      [][]byte  `json:"deletes,omitempty"` // keys deleted again after loading (tombstones under the iterator)
+	Flush        bool      `json:"flush"`
+	Reads        []Read    `json:"reads"`
+	Many         *ManySpec `json:"many,omitempty"`
 }
 
 func (r Read) req() *regattapb.RequestOp_Range {
@@ -197,6 +199,39 @@ func genLarge(t *rapid.T) Case {
 	return c
 }
 
+// genMany: thousands of small pairs (1-3 KiB) adding up to more than 4 MiB, so that size-based cuts are decided by many small
+// increments (per-pair framing overhead matters) and several consecutive messages are full.
+func genMany(t *rapid.T) Case {
+	pool := gen.NewPool(t, 2, 4, 64)
+	c := Case{RecoveryType: rapid.IntRange(0, 1).Draw(t, "rtype"), Flush: rapid.Bool().Draw(t, "flush")}
+	vsz := rapid.SampledFrom([]int{700, 1000, 2048, 3000, 6000}).Draw(t, "content.vsize")
+	total := rapid.IntRange(4500, 9000).Draw(t, "content.totalKiB") * 1024
+	n := total / vsz
+	c.Many = &ManySpec{N: n, VSize: vsz, KeyLen: rapid.SampledFrom([]int{6, 40, 200}).Draw(t, "content.klen")}
+	var sorted [][]byte
+	for i := 0; i < n; i += n / 7 {
+		sorted = append(sorted, c.Many.key(i))
+	}
+	c.Reads = genReads(t, pool, sorted, rapid.IntRange(1, 3).Draw(t, "reads.n"))
+	c.Reads = append(c.Reads, Read{Key: []byte{0}, End: []byte{0}}, Read{Key: []byte{0}, End: []byte{0}, KeysOnly: true})
+	return c
+}
+
+// ManySpec describes a large generated content compactly.
+type ManySpec struct {
+	N      int `json:"n"`
+	VSize  int `json:"vsize"`
+	KeyLen int `json:"key_len"`
+}
+
+func (m *ManySpec) key(i int) []byte {
+	k := []byte(fmt.Sprintf("m%07d", i))
+	for len(k) < m.KeyLen {
+		k = append(k, '.')
+	}
+	return k
+}
+
 func load(c Case) (*fsmx.Replica, *model.Map, *vt.Failure) {
 	r := fsmx.Create(fsmx.NewFS(), fsm.SnapshotRecoveryType(c.RecoveryType), 1)
 	if _, err := r.Open(); err != nil {
@@ -212,6 +247,19 @@ func load(c Case) (*fsmx.Replica, *model.Map, *vt.Failure) {
 		m.Apply(cmd, idx)
 		idx++
 		return nil
+	}
+	if c.Many != nil {
+		val := bytes.Repeat([]byte{'s'}, c.Many.VSize)
+		for i := 0; i < c.Many.N; i += 500 {
+			cmd := &regattapb.Command{Table: []byte("t"), Type: regattapb.Command_PUT_BATCH}
+			for j := i; j < i+500 && j < c.Many.N; j++ {
+				cmd.Batch = append(cmd.Batch, &regattapb.KeyValue{Key: c.Many.key(j), Value: val})
+			}
+			if f := apply(cmd); f != nil {
+				_ = r.Close()
+				return nil, nil, f
+			}
+		}
 	}
 	for _, kv := range c.Content {
 		if f := apply(&regattapb.Command{Table: []byte("t"), Type: regattapb.Command_PUT, Kv: &regattapb.KeyValue{Key: kv.K, Value: kv.V.Bytes()}}); f != nil {
@@ -311,10 +359,33 @@ func run(c Case, o *vt.Obs) *vt.Failure {
 				o.Label("size-cut-before-last-pair")
 			}
 		}
+		// path 3: the streamed sequence is obtained first and consumed only after OTHER requests were served by the state machine
+		// (a server handles many requests between a stream's Lookup and its first pull); reads do not change the state
+		if !want.Single {
+			v, err := r.SM.Lookup(fsm.IteratorRequest{RangeOp: req})
+			if err != nil {
+				return vt.Failf(prop+"/read-error", i, "iterate %s: %v", tlog.FmtRange(req), err)
+			}
+			other := c.Reads[(i+1)%len(c.Reads)].req()
+			_, _ = r.Range(other)
+			_, _ = r.Range(&regattapb.RequestOp_Range{Key: []byte("zz-unrelated-point-read")})
+			_, _ = r.Range(&regattapb.RequestOp_Range{Key: []byte{0}, RangeEnd: []byte("a")})
+			var late []*regattapb.ResponseOp_Range
+			v.(iter.Seq[*regattapb.ResponseOp_Range])(func(x *regattapb.ResponseOp_Range) bool {
+				late = append(late, x)
+				return true
+			})
+			lm, merr := tlog.MergeChunks(late)
+			if merr != nil {
+				return vt.Failf(prop+"/stream-more-flags", i, "iterate (consumed after other requests) %s: %v", tlog.FmtRange(req), merr)
+			}
+			if cerr := model.CheckRangeResponse(want, lm, false); cerr != nil {
+				return vt.Failf(prop+"/stream-consumed-late-"+classify(cerr), i, "iterate %s consumed after other requests had been served: %v", tlog.FmtRange(req), cerr)
+			}
+		}
 		// variants agree with the full read: keys-only / count-only over the same bounds and limit
 		if !rd.KeysOnly && !rd.CountOnly && !want.Single {
-			ko := *req
-			ko.KeysOnly = true
+			ko := regattapb.RequestOp_Range{Key: req.Key, RangeEnd: req.RangeEnd, Limit: req.Limit, KeysOnly: true}
 			kch, err := r.Iterate(&ko)
 			if err != nil {
 				return vt.Failf(prop+"/read-error", i, "%v", err)
@@ -331,8 +402,7 @@ func run(c Case, o *vt.Obs) *vt.Failure {
 					return vt.Failf(prop+"/keys-only-disagrees", i, "range %s: keys-only pair %d = %q (value %d bytes), full read key %q", tlog.FmtRange(req), x, km.Kvs[x].Key, len(km.Kvs[x].Value), merged.Kvs[x].Key)
 				}
 			}
-			co := *req
-			co.CountOnly = true
+			co := regattapb.RequestOp_Range{Key: req.Key, RangeEnd: req.RangeEnd, Limit: req.Limit, CountOnly: true}
 			cresp, err := r.Range(&co)
 			if err != nil {
 				return vt.Failf(prop+"/read-error", i, "%v", err)
@@ -391,6 +461,10 @@ func classify(err error) string {
 func TestC09(t *testing.T)        { vt.Check(t, prop, genCase, run) }
 func TestC09Replay(t *testing.T)  { vt.Replay(t, prop, run) }
 func TestC09Regress(t *testing.T) { vt.Regress(t, prop, "testdata", run) }
+
+func TestC09Many(t *testing.T)        { vt.Check(t, prop, genMany, run) }
+func TestC09ManyReplay(t *testing.T)  { vt.Replay(t, prop, run) }
+func TestC09ManyRegress(t *testing.T) { vt.Regress(t, prop, "testdata", run) }
 
 func TestC09Large(t *testing.T)        { vt.Check(t, prop, genLarge, run) }
 func TestC09LargeReplay(t *testing.T)  { vt.Replay(t, prop, run) }
